@@ -56,7 +56,8 @@ def _once(case, acc, tree, labels):
         nodename = lambda n: "%s%d" % (spec["nodename"], index_of[id(n)])  # noqa: E731
         kwargs["nodenamefunc"] = nodename
     if "node" in spec:
-        nodefunc = lambda n: "%s%d%s" % (spec["node"][0], index_of[id(n)], spec["node"][1])  # noqa: E731
+        # a custom function may leave some nodes as bare identifiers (empty result): third entry m > 0 = every m-th node
+        nodefunc = lambda n: "" if len(spec["node"]) > 2 and spec["node"][2] and index_of[id(n)] % spec["node"][2] == 0 else "%s%d%s" % (spec["node"][0], index_of[id(n)], spec["node"][1])  # noqa: E731
         kwargs["nodefunc"] = nodefunc
     if "edge" in spec:
         edgefunc = lambda p, c: spec["edge"][index_of[id(c)] % len(spec["edge"])]  # noqa: E731
@@ -215,9 +216,9 @@ def random_cases(draw):
         if draw(st.booleans()):
             funcs["nodename"] = draw(st.sampled_from(["id", "K_", "node"]))
         if draw(st.booleans()):
-            funcs["node"] = draw(st.sampled_from([["(", ")"], ["[[", "]]"], ['["', '"]'], ["{", "}"]]))
+            funcs["node"] = draw(st.sampled_from([["(", ")"], ["[[", "]]"], ['["', '"]'], ["{", "}"]])) + [draw(st.sampled_from([0, 0, 1, 2, 3]))]
         if draw(st.booleans()):
-            funcs["edge"] = draw(st.lists(st.sampled_from(["-->", "---", "-.->", "-- x -->", "==>"]), min_size=1, max_size=2))
+            funcs["edge"] = draw(st.lists(st.sampled_from(["-->", "---", "-.->", "-- x -->", "==>", ""]), min_size=1, max_size=2))
         case["funcs"] = funcs
     if draw(st.booleans()):
         case["indent"] = draw(st.integers(0, 8))
